@@ -58,7 +58,8 @@ def fmt_ts(kind, rng, secs, bad=False):
 
 
 GOODNUM = ["0", "1", "2", "3.5", "-4", "10", "0.25", "7", "7", "1e2", "2.5e-1", "+6", ".5", "5.", "12"]
-BADNUM = ["abc", "1.2.3", "--1", "1e", "e5", "0x", "1,5", "1a", "", ".", "+", "1e+"]
+# (the last two are well-formed numbers beyond the range of float64: a range error of strconv.ParseFloat)
+BADNUM = ["abc", "1.2.3", "1e400", "--1", "1e", "e5", "0x", "1,5", "1a", "", ".", "+", "1e+", "-1e999"]
 EVTXT = ["ok", "hello", "a<b", "x&y", "ok", 'q"t', "done"]
 
 
